@@ -121,6 +121,17 @@ class Node3(Node2):
 
 
 @dataclass
+class ContextNode(Node0):
+    """needs a keyword argument of from_json (a context) and hands the keyword arguments on to what it contains"""
+    unit: str = ""
+
+    @classmethod
+    def _from_json(cls, data, **kwargs):
+        return cls(name=data["name"], payload=from_json(data["payload"], **kwargs), friends=from_json(data["friends"], **kwargs),
+                   unit=kwargs["unit"])
+
+
+@dataclass
 class IterNode(Node1):
     """a serialisable object that is also iterable (unpackable): still an object, not a list"""
 
